@@ -89,12 +89,26 @@ fn audit(cases: u64, threads: usize) -> i32 {
             }
             (r.outcome.succeeded(), d)
         };
-        // Simulated outcomes.
+        // Simulated outcomes: of the builds that are handed what `pyxis::build` would be handed
+        // (an explicit API history that puts a text under another path is another input).
+        let plain = crate::props::c09::input_set(&case.worlds[0], &crate::run::Entry::LibBuild);
+        let comparable: Vec<bool> = case
+            .builds
+            .iter()
+            .map(|b| {
+                b.world == 0 && crate::props::c09::input_set(&case.worlds[0], &b.entry) == plain
+            })
+            .collect();
+        if !comparable.iter().any(|c| *c) {
+            continue;
+        }
         let simulated: BTreeSet<(bool, u64)> = std::thread::scope(|s| {
             s.spawn(|| {
                 crate::case::execute(&mut scratch, &case)
                     .iter()
-                    .flatten()
+                    .zip(&comparable)
+                    .filter(|(_, c)| **c)
+                    .flat_map(|(r, _)| r.iter())
                     .map(digest)
                     .collect()
             })
